@@ -259,6 +259,9 @@ def replay_file(path):
 
 
 def cmd_replay(path, verbose=True):
+    if json.load(open(path)).get('engine') == 'scansim':
+        from sim import c16
+        return c16.replay(path, verbose)[0]
     doc, res = replay_file(path)
     want = doc['violation']
     if res['harness_error']:
@@ -364,7 +367,7 @@ def main():
         return core.EXIT_HARNESS
 
     try:
-        results = core.pmap(_exec_index, [(root, i, thorough) for i in range(nruns)], jobs=jobs, chunk=16,
+        results = core.pmap(_exec_index, [(root, i, thorough) for i in range(nruns)], jobs=jobs, chunk=16, wall_per_chunk=180,
                             budget_s=budget)
     except core.WorkerDied as e:
         print('HARNESS-FAILURE %s' % e)
